@@ -21,6 +21,7 @@ RULE = ('(1) random filter expressions (depth <=4, and/or, =/!=, parentheses, sa
         'trimmed schema, retained types and by-name tables are compared with the model; (3) malformed '
         'expressions (token-level edits), unknown namespaces and unknown attributes must end in exit 1 with '
         'an error. distinct = distinct (expression shape, assignment) pairs + distinct option combinations')
+RULE += ' ' + "String literals carry escapes; malformed expressions include a fixed list judged without the repository's parser (the empty expression included); route names are shared between namespaces."
 ASSUMPTIONS = ['comparisons across literal kinds (e.g. true = 1) are unspecified and not generated']
 REQUIRED_COUNTERS = ['truth_assignments', 'cli_runs', 'malformed_checked']
 
